@@ -7,8 +7,9 @@ model of tsa/wire.py (header fields as records; justified by C12's round-trip/fr
    ProtocolStrategyResponse::from + Strategy::validate + check_trace_id,
 and requires on every abstract trace:  recovered sequence ≡ issued sequence (as linear terms, mod 2^16), trace id accepted, validate = true.
  R1 inversion per accepted cell (the table is exhaustive over the finite configuration space).
- R2 rejection half: validate's per-cell truth tables (= C03.R5v, imported) and the protocol pair table of extract_probe_proto_resp
-    {(Icmp, Icmp|IcmpV6), (Udp, Udp), (Tcp, Tcp)} → Some, everything else → None.
+ R2 rejection half: validate's per-cell truth tables (= C03.R5v, imported), the protocol pair table of extract_probe_proto_resp
+    {(Icmp, Icmp|IcmpV6), (Udp, Udp), (Tcp, Tcp)} → Some, everything else → None, and (R2m) the Dublin/IPv6 marker test is exactly
+    quoted-payload.starts_with(MAGIC).
  R3 quotation length: on the decode path every accessor applied to the quoted transport header reads within its first 8 octets (RFC 792's
     "IP header + 64 bits"), per the RFC layout oracle of C12.
  R4 wiring: the copies of target address / initial sequence / protocol / privilege mode / pattern / tos / packet size used by the channel and by
@@ -98,8 +99,10 @@ def run(chk, tier):
                         bad = 'recovered trace id is %s (expected %s)' % (tid, want_tid)
                 f3, vo = c.validate(pr_, d.st)
                 for x in vo:
-                    if vshow(x.value) != '1':
-                        bad = 'Strategy::validate rejects the tracer\'s own probe (%s under %s)' % (vshow(x.value)[:40], [(vshow(a)[:60], v) for a, v, _ in x.st.decisions][-2:])
+                    if vshow(x.value) == '0':
+                        bad = 'Strategy::validate rejects the tracer\'s own probe (under %s)' % ([(vshow(a)[:60], v) for a, v, _ in x.st.decisions][-2:],)
+                    elif vshow(x.value) != '1':
+                        bad = 'Strategy::validate is not shown to accept the tracer\'s own probe: its result depends on %s, which the decode path does not derive from the marker / ports / address the probe was sent with' % vshow(x.value)[:120]
             if not got_some and not bad:
                 bad = 'no decode trace recognises the probe'
         if bad is None:
@@ -107,6 +110,26 @@ def run(chk, tier):
         else:
             chk.fail('R1', inst, fn_loc(c.dispatch_fn), 'cell %s: %s' % (c.name(), bad), key='R1|%s' % c.name())
     chk.extra['cells_accepted'] = cells
+
+    # ---- R2m: the Dublin/IPv6 marker test -------------------------------------------------------------------
+    chk.rule('R2m', 'the Dublin/IPv6 marker test is payload.starts_with(MAGIC), with the MAGIC the dispatch code writes', floor=1)
+    fm = prog.find(r'net::ipv6::udp_payload_has_magic_prefix$')
+    chk.fn_seen(fm['path'])
+    mc = prog.consts.get('trippy_core::net::ipv6::MAGIC')
+    magic = list(bytes.fromhex(mc['pbytes'])) if mc and mc.get('pbytes') else None
+    e0 = Engine(prog, inline_depth=0)
+    st0 = St()
+    oks = sorted({vshow(o.value) for o in e0.run(fm, [e0.sym_ref(st0, 'ipv6')], st0) if o.kind == 'return' and vshow(o.value).startswith('Result::Ok')})
+    ok_m = False
+    if magic and len(oks) == 1:
+        pre, suf = 'Result::Ok(call:slice::starts_with(call:UdpPacket::payload(', '), %s))' % str(magic)
+        mid = oks[0][len(pre):-len(suf)] if oks[0].startswith(pre) and oks[0].endswith(suf) else None
+        # the view is the UDP packet parsed from the quoted IPv6 payload
+        ok_m = mid is not None and mid.count('(') == mid.count(')') and 'UdpPacket::new_view(call:Ipv6Packet::payload(ipv6))' in mid
+    if ok_m:
+        chk.ok('R2m', 'has_magic', 'quoted UDP payload starts with %s (%d octets): a shorter or different payload is never taken for the marker' % (bytes(magic), len(magic)))
+    else:
+        chk.fail('R2m', 'has_magic', fn_loc(fm), 'the Dublin/IPv6 marker test is %s; it must be the quoted UDP payload\'s starts_with(MAGIC) so that a missing or truncated marker is never accepted' % oks, key='R2m|has_magic')
 
     # ---- R2p ------------------------------------------------------------------------------------------------
     IPP = 'trippy_packet::IpProtocol'
